@@ -456,7 +456,8 @@ class TypeState:
                 if _elem(src) is not None:
                     k_src = self.canon_key(st, ("field", src, "order", ""))
                     if k_src in st:
-                        st[self.canon_key(st, ("field", ("local", s_.place.local), "order", ""))] = st[k_src]
+                        # (keyed exactly as the branch atoms spell the entity: field node annotated with the owner type)
+                        st[self.canon_key(st, ("field", ("local", s_.place.local), "order", s_.place.ty))] = st[k_src]
         t = blk.term
         if t and t.k == "call":
             c = [c for c in q.calls() if c.b == b]
@@ -469,6 +470,12 @@ class TypeState:
     def transfer_write(self, q, w, st, mode):
         a = w.addr
         if a[0] != "field":
+            # `self.orders[id] = entry;` (the working copy stored back): the slot is now in the copy's abstract state
+            if _elem(a) is not None and w.val[0] == "local":
+                k_slot = self.canon_key(st, ("field", a, "order", ""))
+                k_loc = self.canon_key(st, ("field", w.val, "order", ""))
+                if k_slot in st and k_loc in st:
+                    st[k_slot] = st[k_loc]
             return
         f = a[2]
         owner = (a[3] if len(a) > 3 else "").split("::")[-1]
@@ -604,6 +611,10 @@ class TypeState:
     def release_entities(self, q, c, st):
         """a call whose result is part of an entity's identity re-acquires the entity"""
         res = c.result
+        # a plain element access by a value that does not change during the operation (a parameter / field path, not the result of
+        # a query such as the queue head) addresses the same slot every time it is evaluated: nothing is re-acquired
+        if c.name in ("index", "index_mut", "get", "get_mut") and len(c.args) == 2 and not any(x[0] in ("call", "phi", "cycle") for x in walk(c.args[1])):
+            return
         for k in list(st.keys()):
             if any(x == res for x in walk(k)):
                 for t in st[k]:
